@@ -8,6 +8,7 @@ package runtimev2
 import (
 	"github.com/GuanceCloud/platypus/internal/verifnd"
 	"github.com/GuanceCloud/platypus/pkg/ast"
+	"github.com/GuanceCloud/platypus/pkg/engine/runtime"
 )
 
 // wRefStep applies one index step of the reference to cur. ok=false: error.
@@ -87,11 +88,13 @@ func VerifV2Index() {
 	ctx.SetVarb("o", V{obj, ot})
 	keys := make([]any, depth)
 	kcs := make([]int, depth)
+	vars := []wVar{{"o", obj, ot}}
 	var idx []*ast.Node
 	names := []string{"k", "j"}
 	for d := 0; d < depth; d++ {
 		kv, kt, kc := wIndexKey(L)
 		keys[d], kcs[d] = kv, kc
+		vars = append(vars, wVar{names[d], kv, kt})
 		ctx.SetVarb(names[d], V{kv, kt})
 		idx = append(idx, wIdent(names[d]))
 	}
@@ -114,8 +117,17 @@ func VerifV2Index() {
 		cur, lastPos, ok, absent = wRefStep(cur, keys[d], kcs[d])
 	}
 	if innerAbsentRead {
+		// read through an absent key: the index reference is silent; the two interpreters
+		// must agree (shared language: same value, same error verdict)
 		verifnd.Reach("read-through-absent-key")
-		_ = RunIndexExprGet(ctx, &ast.IndexExpr{Obj: &ast.Identifier{Name: "o"}, Index: idx})
+		expr := &ast.IndexExpr{Obj: &ast.Identifier{Name: "o"}, Index: idx}
+		err2 := RunIndexExprGet(ctx, expr)
+		v2v, v2t, _ := wResult(ctx, err2)
+		v1v, v1t, err1 := runtime.RunIndexExprGet(wV1Task(vars, nil), expr)
+		verifnd.Assert((err1 == nil) == (err2 == nil), "read-through-absent-key:same-error-verdict-as-v1")
+		if err1 == nil && err2 == nil {
+			verifnd.Assert(wSameDeep(v1v, v2v) && v1t == v2t, "read-through-absent-key:same-value-as-v1")
+		}
 		return
 	}
 	if !write {
